@@ -53,13 +53,26 @@ def Sense(
 
     if coil_batch_size < len(mps):
         num_coil_batches = (num_coils + coil_batch_size - 1) // coil_batch_size
+        # weights with a leading coil axis are split along with the coils
+        ksp_ndim = img_ndim if coord is None else coord.ndim - 1
+        weights_per_coil = (
+            weights is not None
+            and weights.ndim == ksp_ndim + 1
+            and weights.shape[0] == num_coils
+        )
         A = sp.linop.Vstack(
             [
                 Sense(
                     mps[c * coil_batch_size : ((c + 1) * coil_batch_size)],
                     coord=coord,
-                    weights=weights,
+                    weights=weights[
+                        c * coil_batch_size : ((c + 1) * coil_batch_size)
+                    ]
+                    if weights_per_coil
+                    else weights,
+                    tseg=tseg,
                     ishape=ishape,
+                    transp_nufft=transp_nufft,
                 )
                 for c in range(num_coil_batches)
             ],
